@@ -121,11 +121,13 @@ def search(ctx, focus=(), deep=1):
 
 
 def check(ctx):
-    ctx.rule = ('proof: generic engine round trip + per-protocol kernel obligations regenerated from /repo; correspondence: real _build_packet / CodeWrapper / '
+    ctx.rule = ('proof: generic engine round trip + per-protocol kernel obligations regenerated from /repo; parameter-level theorem C01_wrapper for the protocols whose traced '
+                'encode()/decode() wrappers (tools/wtrace.py, re-executed on /repo every run) meet the kernel-checked obligation c01OK; wrapper correspondence: generated wrapper model vs '
+                'the real encode() (all frames, repeat_count 0..2) and decode() (histories with held key, corrupted frames); correspondence: real _build_packet / CodeWrapper / '
                 'IrProtocolBase.decode vs the Lean model on valid, window-edge-perturbed, structurally damaged and garbage frames of every regular protocol; '
                 'search: all protocols, every per-parameter boundary value crossed with random others + random (exhaustive when the space is <= 4096, thorough), '
                 'oracle = encode, feed the first frame group to a fresh decoder, compare every parameter. distinct = distinct (protocol, parameter set)')
-    tabs, ok = engine_prove.prove(ctx, MODULES)
+    tabs, ok = engine_prove.prove(ctx, MODULES, with_wrappers=True)
     import fingerprint
     changed_p, changed_e = fingerprint.changed()
     focus = engine_prove.failed_protocols(ctx) | changed_p
@@ -134,6 +136,9 @@ def check(ctx):
     r = vlib.rng('c01corr')
     try:
         ec.standard_correspondence(ctx, r, per_proto=2 if not ctx.thorough else 8, focus=focus)
+        # the traced wrappers (encode()/decode() bodies) against the real methods
+        from props import wrap_common
+        wrap_common.correspondence(ctx, vlib.rng('c01wrap'), tabs, getattr(ctx, 'winfo', {}), per_proto=3 if not ctx.thorough else 12, focus=focus)
     except Exception:
         import traceback
         ctx.oblige('correspondence_driver', False, traceback.format_exc()[-500:])
